@@ -42,6 +42,9 @@ const WATCHDOG: Duration = Duration::from_secs(5);
 /// holds this lock shared; a scenario that *aligns* the counters holds it exclusively while it
 /// measures, shifts and creates.
 static ID_LOCK: RwLock<()> = RwLock::new(());
+/// how long a scenario waits for `ID_LOCK` before it gives up (reported as `setup=blocked`, which is
+/// not an oracle failure: it only happens behind a scenario that hangs while creating arbiters)
+const LOCK_WAIT: Duration = Duration::from_secs(90);
 
 // -------------------------------------------------------------------------------------------------
 // scenario description (shared grammar with lean/Driver/Rt.lean — keep the validity rules identical)
@@ -299,6 +302,7 @@ fn exec_c09(sc: &Scenario, mode_run: bool, jseed: u64) -> Out {
     }
 
     let (setup_tx, setup_rx) = mpsc::channel();
+    let (locked_tx, locked_rx) = mpsc::channel::<()>();
     let (res_tx, res_rx) = mpsc::channel::<Result<i32, String>>();
 
     // issuers that live on the system thread
@@ -316,6 +320,7 @@ fn exec_c09(sc: &Scenario, mode_run: bool, jseed: u64) -> Out {
         let excl = align.map(|_| ID_LOCK.write().unwrap_or_else(|e| e.into_inner()));
         let shared = if excl.is_none() { Some(ID_LOCK.read().unwrap_or_else(|e| e.into_inner())) } else { None };
         let shifted = align.map(align_counters).unwrap_or(false);
+        let _ = locked_tx.send(());
         let runner = System::new();
         let sys = System::current();
         let mut slots = vec![];
@@ -419,6 +424,11 @@ fn exec_c09(sc: &Scenario, mode_run: bool, jseed: u64) -> Out {
     });
 
     let mut t3 = vec![];
+    // waiting for the id lock (other scenarios' creation phases, counters being shifted) is not part of
+    // the scenario: the watchdog runs from the moment the lock is held
+    if locked_rx.recv_timeout(LOCK_WAIT).is_err() {
+        return Out { log: "setup=blocked".into(), verdict: "setup=blocked".into(), t3: vec![] };
+    }
     let (sys, mut slots, early, shifted) = match setup_rx.recv_timeout(4 * WATCHDOG) {
         Ok(x) => x,
         Err(_) => {
@@ -713,12 +723,19 @@ struct Sys10 {
 /// thread hosts `n` other Systems one after the other, each of which does a little work (a local task;
 /// every other one also an arbiter that comes and goes); their runners are kept alive until the
 /// thread ends, or dropped at once.
-fn start_system(narb: usize, host: Option<(usize, bool)>) -> Option<Sys10> {
+fn start_system(narb: usize, host: Option<(usize, bool)>) -> Result<Sys10, Out> {
+    let fail = |what: &str, t3: bool| Out {
+        log: format!("setup={what}"),
+        verdict: format!("setup={what}"),
+        t3: if t3 { vec![("C10".into(), "System::new / Arbiter::new did not return within the watchdog".into())] } else { vec![] },
+    };
     let (setup_tx, setup_rx) = mpsc::channel();
+    let (locked_tx, locked_rx) = mpsc::channel::<()>();
     let (res_tx, res_rx) = mpsc::channel();
     thread::spawn(move || {
         let mut kept = vec![];
         let lock = ID_LOCK.read().unwrap_or_else(|e| e.into_inner());
+        let _ = locked_tx.send(());
         if let Some((n, keep)) = host {
             for i in 0..n {
                 let r = System::new();
@@ -742,8 +759,9 @@ fn start_system(narb: usize, host: Option<(usize, bool)>) -> Option<Sys10> {
         let _ = res_tx.send(r);
         drop(kept);
     });
-    let (sys, sys_thread, arbs) = setup_rx.recv_timeout(4 * WATCHDOG).ok()?;
-    Some(Sys10 { sys, sys_thread, arbs, res_rx })
+    locked_rx.recv_timeout(LOCK_WAIT).map_err(|_| fail("blocked", false))?;
+    let (sys, sys_thread, arbs) = setup_rx.recv_timeout(4 * WATCHDOG).map_err(|_| fail("hang", true))?;
+    Ok(Sys10 { sys, sys_thread, arbs, res_rx })
 }
 
 fn short<T: std::fmt::Debug>(v: &[T]) -> String {
@@ -760,8 +778,9 @@ fn exec_c10(sc: &Scenario, jseed: u64) -> Out {
     let nreal = narb - sc.sys_idx.map_or(0, |_| 1);
     let mut rng = Rng::new(jseed);
     let mut t3: Vec<(String, String)> = vec![];
-    let Some(Sys10 { sys, sys_thread, arbs, res_rx }) = start_system(nreal, sc.host) else {
-        return Out { log: "setup=hang".into(), verdict: "setup=hang".into(), t3: vec![("C10".into(), "setup hang".into())] };
+    let Sys10 { sys, sys_thread, arbs, res_rx } = match start_system(nreal, sc.host) {
+        Ok(x) => x,
+        Err(out) => return out,
     };
     let sys_id = sys.id();
     let log = Arc::new(TaskLog {
@@ -1113,8 +1132,9 @@ fn count_pre(sc: &Scenario, a: usize) -> usize {
 fn exec_ident(sc: &Scenario) -> Out {
     let narb = sc.narb;
     let mut t3 = vec![];
-    let Some(Sys10 { sys, sys_thread, arbs, res_rx }) = start_system(narb, sc.host) else {
-        return Out { log: String::new(), verdict: "setup=hang".into(), t3: vec![("C10".into(), "setup hang".into())] };
+    let Sys10 { sys, sys_thread, arbs, res_rx } = match start_system(narb, sc.host) {
+        Ok(x) => x,
+        Err(out) => return out,
     };
     let sys_id = sys.id();
     // (arbiter or usize::MAX for the system arbiter, probe, thread, System::current().id(), return of the send that created a follow-up probe)
@@ -1742,8 +1762,7 @@ fn gen_c09(a: &Args, w: &mut dyn Write) {
     let mut rng = Rng::new(a.seed ^ 0xC09);
     directed_c09(w, &mut rng, a.tier == "thorough");
     if a.tier == "thorough" {
-        // the whole space: 0..3 arbiters × kinds × origin × code × 1–2 stops, 3 repetitions (the first
-        // with the counters as they are, the others with an arbiter's number aligned to the system id)
+        // the whole space: 0..3 arbiters × kinds × origin × code × 1–2 stops, 3 repetitions
         let mut n = 0;
         for rep in 0..3u64 {
             for na in 0..=3usize {
@@ -1764,7 +1783,9 @@ fn gen_c09(a: &Args, w: &mut dyn Write) {
                                     }
                                 }
                                 let mode = if (n + rep as usize) % 2 == 0 { "code" } else { "run" };
-                                let align = if rep == 0 || na == 0 { None } else { Some((rep as usize + kc + oi) % na) };
+                                // two thirds with an arbiter's number aligned to the system id, spread evenly
+                                // (so the counters never drift far apart and shifting them stays cheap)
+                                let align = if (n + rep as usize) % 3 == 0 || na == 0 { None } else { Some((rep as usize + kc + oi) % na) };
                                 write_c09(w, &format!("x{n}"), &kinds, align, &stops, mode, rng.next() % 1_000_000);
                                 n += 1;
                             }
